@@ -69,11 +69,14 @@ def iota (L padRows padCols : Nat) (x : List (List K)) : List (List K) :=
     (padRight padCols r0 :: zerosN (L + padCols) :: rest.map (padRight padCols))
       ++ List.replicate padRows (zerosN (L + padCols))
 
+/-- remove the entry at index 1 -/
+def dropRow1 {α : Type} : List α → List α
+  | a :: _ :: t => a :: t
+  | l => l
+
 /-- fast layout → real layout: `y[:2M, :L]` with row 1 removed (`twoM = 2M`) -/
 def unIota {α : Type} (twoM L : Nat) (y : List (List α)) : List (List α) :=
-  match y.take twoM with
-  | r0 :: _ :: rest => (r0 :: rest).map (List.take L)
-  | other => other.map (List.take L)
+  (dropRow1 (y.take twoM)).map (List.take L)
 
 /-- the same re-indexing for arrays of any entry type with an explicit filler (masks: `false`) -/
 def iotaWith {α : Type} (fill : α) (L padRows padCols : Nat) (x : List (List α)) : List (List α) :=
